@@ -58,7 +58,8 @@ def r181_182(db, ctx):
         rels = G.relations(f, R, abi)
         cu = X.canon(used)
         upper = [r for r in rels if (r[0] == 'lt' and X.canon(norm(r[1])) == cu) or (r[0] == 'gt' and X.canon(norm(r[2])) == cu)]
-        lower = [r for r in rels if (r[0] == 'ge' and X.canon(norm(r[1])) == cu and norm(r[2]) == ('k', 0))]
+        lower = [r for r in rels if (r[0] == 'ge' and X.canon(norm(r[1])) == cu and norm(r[2]) == ('k', 0)) or
+                 (r[0] == 'le' and len(r) > 3 and X.canon(norm(r[2])) == cu and norm(r[1]) == ('k', 0))]
         any_upper = [r for r in rels if r[0] in ('lt', 'gt')]
         if upper:
             bound = norm(upper[0][2] if upper[0][0] == 'lt' else upper[0][1])
